@@ -42,6 +42,12 @@ nodes:
     branching:
       type: message
       branches:
+      - pattern: {"boom": "?b"}
+        guard:
+          interpreter: ecmascript
+          source: |-
+            throw "boom";
+        target: rec
       - pattern: {"m": "?m"}
         target: rec
   rec:
@@ -161,6 +167,11 @@ func logOf(bs match.Bindings) vT {
 			out = append(out, fmt.Sprint(x))
 		}
 	}
+	if _, failed := bs["error"]; failed {
+		// (a machine that failed - its first step for a "boom" message errs - sits at the error node with the diagnostic
+		// bindings: the abstraction of its state ends with this marker)
+		out = append(out, "@err")
+	}
 	return out
 }
 
@@ -201,7 +212,7 @@ type svcOp struct {
 }
 
 func doSvcOp(ctx context.Context, s *Service, rec *recorder, i int, op svcOp) {
-	rec.add(vO{"ev": "call", "op": i, "kind": op.Kind, "mid": op.Mid, "msg": op.Msg})
+	rec.add(vO{"ev": "call", "op": i, "kind": op.Kind, "mid": op.Mid, "msg": op.Msg, "boom": op.Kind == "proc" && strings.HasPrefix(op.Msg, "boom")})
 	switch op.Kind {
 	case "add":
 		err := s.AddMachine(ctx, "counter", op.Mid, "", nil)
@@ -215,6 +226,9 @@ func doSvcOp(ctx context.Context, s *Service, rec *recorder, i int, op svcOp) {
 		rec.add(vO{"ev": "ret", "op": i, "kind": op.Kind, "res": classifyErr(err), "walks": vO{}})
 	case "proc":
 		msg := map[string]interface{}{"m": op.Msg}
+		if strings.HasPrefix(op.Msg, "boom") {
+			msg = map[string]interface{}{"boom": op.Msg}
+		}
 		if op.Mid != "*" {
 			msg["to"] = op.Mid
 		}
@@ -428,6 +442,9 @@ func faultHistory(id int, rng *rand.Rand, dir string, given *vO) vO {
 				op["kind"] = "proc"
 				if rng.Intn(4) == 0 {
 					op["mid"] = "*"
+				}
+				if rng.Intn(6) == 0 {
+					op["msg"] = "boom" + strconv.Itoa(i+1) // the first step of the walk errs
 				}
 			default:
 				op["kind"] = "read"
